@@ -23,7 +23,11 @@ META = {
     "technique": "TLA+ reference semantics (AldorSem.tla, and AldorSemW32.tla = the same machine with a 32-bit machine integer) evaluated "
                  "by TLC gives the expected behaviour and the family membership; every program is run by aldor -Ginterp and by "
                  "aldor -Jmain -Fjava + javac + java at -Q1/-Q3/-Q9; the recorded runs are validated by TLC against the monitor "
-                 "JavaRoute.tla (itself model-checked exhaustively on small constants)",
+                 "JavaRoute.tla (itself model-checked exhaustively on small constants).  Three TLC-enumerated sub-families: integer "
+                 "constants around the limits of Java's int / long / BigInteger representations (JavaLits.tla -> abstract programs); "
+                 "every builtin of the Java run time on sign/boundary operands and every nested pair of Java operator builtins "
+                 "(JavaExprGen.tla -> expression trees, values from Builtins.tla instantiated at 32 and 64 bits, observations validated "
+                 "by TraceJavaExpr.tla); the parenthesisation rule of the Java printer is model-checked against the Java grammar",
     "design_ref": "DESIGN.md 3.1 (dialects), 3.11 (Obs), 5 C12",
     "level_text": "The statement 'for every program p of the slice and level q in {1,3,9}: javac accepts the generated classes and "
                   "Out(java,p,q) = Out(interp,p,q) = AldorSem(p)' is the TLA+ module JavaRoute.tla (a monitor built on Obs.tla). TLC checks "
@@ -35,7 +39,11 @@ META = {
                   "compared with AldorSem on the interpreter route), javac/java 17, the shipped jars (foamj, foam, foamlib, aldor) and "
                   "libaldor.al as built by the repository; SHA-256 for comparing outputs. Family = programs whose behaviour does not "
                   "depend on the machine-integer width (Java: 32-bit int, interpreter: 64-bit word) and whose machine-integer literals fit "
-                  "32 bits; exceptions (try/throw), unions, generators and arrays are not in the family yet.",
+                  "32 bits; exceptions (try/throw), unions, generators and arrays are not in the family yet.  Builtin expressions: "
+                  "Builtins.tla / Word.tla (C04's modules, instantiated at SIntW = 32 and 64) are the definition; an expression is judged "
+                  "iff it is inside every operation's domain and has the same value at both sizes; the foamj run time is compiled from "
+                  "the sources of the tree under test and precedes the shipped jars on the class path; floating-point builtins and the "
+                  "operations foamj declares unimplemented are outside the family.",
 }
 
 LEVELS = [1, 3, 9]
@@ -372,7 +380,10 @@ EXPR_CFG = {
     # where the optimiser's simplifier has been over the expression first
     "quick": dict(Stride=61, Stride3=7, Core="sign", PerPair=1, NCand=16, batch=480,
                   levels=lambda kind, k, seed: [1, 3] if kind == "nest" and k % 3 == seed % 3 else [1]),
-    "thorough": dict(Stride=1, Stride3=1, Core="full", PerPair=4, NCand=48, batch=300, levels=lambda kind, k, seed: [1, 3, 9]),
+    # thorough: the limits join the complete products, every third pair of the large products, four operand choices per
+    # nested pair; -Q9 on all nested pairs and on a third of the flat batches (about 25 000 expressions)
+    "thorough": dict(Stride=3, Stride3=2, Core="full", PerPair=4, NCand=48, batch=300,
+                     levels=lambda kind, k, seed: [1, 3, 9] if kind == "nest" or k % 3 == seed % 3 else [1, 3]),
 }
 EXPR_RESTARTS = 12        # a route that stops on a case (Java exception, fault) is restarted on the cases after it
 
@@ -433,7 +444,7 @@ def expr_run_config(build, batch, bi, sig, route, q, workdir, budget=None):
     for attempt in range(EXPR_RESTARTS + 1):
         if not remaining:
             break
-        prog = {"id": "E%d_%d" % (bi, attempt), "source_text": JE.render(remaining, sig), "render_opts": {"dialect": "libaldor"},
+        prog = {"id": "E%d_%d" % (bi, attempt), "source_text": JE.render(remaining, sig, chunk=JE.CHUNK if q < 5 else 6), "render_opts": {"dialect": "libaldor"},
                 "funs": [], "top": []}
         if budget[0] <= 0:
             break
@@ -590,6 +601,7 @@ def expr_family(chk, build, tier, workdir, stats, corrupt=None):
                      "nested_pairs_requiring_parentheses": len({(x["op"], x["slot"], x["child"]) for x in nest if x["req"]}),
                      "nested_pairs_with_distinguishing_operands": len({(x["op"], x["slot"], x["child"]) for x in nest if x["req"] and x["dist"]}),
                      "pairs_without_distinguishing_operands": len([x for x in nodist if x["req"] and x["n"] > 0]),
+                     "printer_latent_pairs": ["%s(%s) in slot %d" % (x["op"], x["child"], x["slot"]) for x in nodist if x.get("latent")],
                      "pairs_without_member": len([x for x in nodist if x["n"] == 0]),
                      "levels_per_batch": blevels, "batches": len(batches), "observations": len(events), "judged": total["checked"],
                      "rejected": total["rejected"], "skipped_after_fault": skipped,
@@ -668,16 +680,29 @@ def run(chk, tier):
     chk.extra["routes"] = ROUTES
     chk.extra["features"] = javaslice.FEATURES
     chk.extra["classpath"] = progrun.JAVA_JARS
-    chk.rule = ("programs drawn per seed from the Java slice of the typed grammar (features drawn per program; libaldor dialect; machine-integer "
+    chk.extra["expression_family"] = stats.get("expr")
+    chk.rule = ("(1) programs drawn per seed from the Java slice of the typed grammar (features drawn per program; libaldor dialect; machine-integer "
                 "literals within 32 bits), each evaluated by TLC under 64-bit and 32-bit machine integers and both extreme operand orders; "
                 "members of the family = terminating programs with one behaviour under both widths; a case is (program, route, level) "
-                "with route in {interp, java}, level in {1,3,9}; non-trivial = the specification assigns a non-empty output")
+                "with route in {interp, java}, level in {1,3,9}; non-trivial = the specification assigns a non-empty output; "
+                "(2) literal programs: TLC enumerates 2^k-1, 2^k, 2^k+1, 2^k+5 (both signs) for the exponents at which Java's int, long "
+                "and the compiler's immediate big integers end, grouped into programs that print arithmetic on them; judged like (1); "
+                "(3) builtin expressions: TLC enumerates, per builtin of the Java subset, operand tuples from sign/boundary sets (complete "
+                "sign core, strided products of the limits; stride and offset from the tier and seed) and, per (operator builtin, operand "
+                "slot, operator builtin of the slot's type), a tree on operands that tell the parenthesised and the unparenthesised "
+                "reading apart; a case is (expression, route, level)")
     chk.assumptions += ["the width of the machine integer is a platform parameter (Java int = 32 bits, interpreter word = 64 bits): only "
                         "programs whose specified behaviour is the same under both widths are judged",
                         "operand evaluation order is undefined: only order-independent programs are replayed",
                         "in libaldor `error` writes to the standard error stream: the specification's halt message is not part of stdout; "
                         "the interpreter's stack listing after a halt is a diagnostic",
-                        "javac/java are OpenJDK 17; the jars and libaldor.al are those built by the repository's own build"]
+                        "javac/java are OpenJDK 17; foam.jar, foamlib.jar, aldor.jar and libaldor.al are those built by the repository's own "
+                        "build; the foamj classes are compiled from <tree under test>/aldor/aldor/lib/java/src/foamj",
+                        "builtin expressions: a Word is observed through its signed reading; the expression programs import the builtins "
+                        "from Builtin and read their operands from run-time pools, so that no constant folding stands between the "
+                        "expression and the back end; &&, || and >>> are in the Java printer's table but no FOAM construct is mapped to them",
+                        "-(-x) is removed by the FOAM simplifier at every level, so the printer's `--x` for that pair is latent (reported in "
+                        "expression_family.printer_latent_pairs, not as a violation)"]
 
 
 SELFTEST_NOTES = """
@@ -719,6 +744,22 @@ Thorough tier (2026-10-04, machine shared with ten other builders, load average 
 family members x {interp, java} x {1,3,9} = 2664 runs + 66 corpus runs, 4.76 M TLC states, 29 min; first run found, besides the
 entries above, the emerge defect (optimiser, both routes), the parentheses defect inside generated programs, and a renderer slip of
 mine (0^0: libaldor's `^` returns its base when the base is 0; now spelled out by gen/render.py); second run exit 0.
+
+Strengthening (2026-10-04, after three seeded changes the quick tier missed): JavaLits.tla (literal alphabet), JavaExpr.tla /
+JavaExprGen.tla / TraceJavaExpr.tla + gen/javaexpr.py (builtin expressions: flat = run time, nested = printer's parentheses).
+  /tmp/seeded/C12-1 (gj0BInt emits every immediate BInt through BigInteger.valueOf(<int literal>))   CAUGHT  18 violations, programs
+        L_bi2 .. (constants 2^31 <= |v| < 2^62) at -Q3/-Q9, wrong-output
+  /tmp/seeded/C12-2 (foamj.Math.gcd(int,int) as a bare Euclid loop: sign of the result)                CAUGHT  5 violations, flat SIntGcd
+        with a negative second operand, -Q1
+  /tmp/seeded/C12-3 (javacode.c: | and ^ get swapped precedence levels)                                CAUGHT  3 violations, nested
+        SIntXOr(SIntOr(..), ..), SIntXOr(.., SIntOr(..)), SIntNot(SIntOr(..)) at -Q1/-Q3
+  Unchanged tree: exit 0 with VERIF_SEED = default, 1, 2, 3.  New findings of the unchanged tree (all Java route, reproduced by hand with
+  gen/c12_repro/builtins_on_java.as): BIntLength of negatives, BIntMod with negative modulus (exception) / negative dividend (residue vs
+  remainder, root = C11 finding), unsigned Byte as signed byte, SIntPlusMod / SIntTimesMod overflow in 32 bits; candidate patches
+  hooks/candidate-C12-*.diff applied together in a worktree make all of them disappear except the BIntMod residue/remainder disagreement.
+  Timing pitfalls: at -Q5+ the printing helpers are inlined into every case, so the functions of an expression program hold 6 cases
+  (40 below); a literal program carries at most ~27 printed values (javac: code too large).  INSTANCE Builtins: zero-arity
+  definitions of an instantiated module are re-evaluated on every use (Sig took 60 ms): tabulate them in the instantiating module.
 
 Admission of features to the libaldor dialect (interpreter route against AldorSem on the unchanged tree, before Java was looked at):
 seeds 1, 3, 7 (~400 programs) with bi, str, fun, while, for, exit, list, rec, clos, brk, rec_fun, halt: no disagreement other than the
